@@ -1,5 +1,6 @@
 (** C08 property theorems: for every table of call functions [body] (call #i's function performs the
-    timer operations [body i]), every history [ops] of callLater / cancel / reset / delay /
+    timer operations [body i] and may end by raising an exception, which the reactor logs before it goes on
+    with the next call), every history [ops] of callLater / cancel / reset / delay /
     getDelayedCalls / clock advances / runUntilCurrent / timeout() from the fresh reactor, every fuel.
     The log is kept newest first.  Times are integers (dyadic rationals scaled by 2^k). *)
 From Coq Require Import List Arith ZArith Bool Permutation.
